@@ -314,6 +314,32 @@ theorem glue_in_bailiwick (locals : List IP) (ipv6 : Bool) (level : Nat) (qname 
     | true => simp only [if_true] at hm; exact fin 28 hm
     | false => simp at hm
 
+/-- **Glue stays inside the delegating zone — provided the level handed to
+`checkGlueRR` is at least the zone's depth.** `checkGlueRR` does not know the
+zone whose servers answered; it trusts `rs.level`. If the delegating zone is an
+ancestor-or-self of the name asked and has at most `level` labels, every
+accepted host lies label-wise inside that zone. The hypothesis
+`(labelsOf zone).length ≤ level` is an invariant of the resolver's descent
+(`rs.level` vs `rs.servers.Zone`) that is NOT established here: it is what the
+l3 shape `race-cached-delegation` probes, and where it fails the bailiwick is
+wider than the zone (see the example below and notes/C07.md). -/
+theorem glue_inside_delegating_zone (locals : List IP) (ipv6 : Bool) (level : Nat) (qname zone : Str)
+    (hosts : List Str) (extras : List Extra) (host : Str) (a : IP)
+    (hzone : LabelSuffix (labelsOf zone) (labelsOf qname))
+    (hlevel : (labelsOf zone).length ≤ level)
+    (hm : (host, a) ∈ (checkGlue locals ipv6 level qname hosts extras).v4 ∨
+          (host, a) ∈ (checkGlue locals ipv6 level qname hosts extras).v6) :
+    LabelSuffix (labelsOf zone) (labelsOf host) := by
+  obtain ⟨_, _, hin, _⟩ := glue_in_bailiwick locals ipv6 level qname hosts extras host a hm
+  exact (hzone.drop_of_le level hlevel).trans hin
+
+-- with the right level (3 = labels of evil.co.test.) the sibling zone's name server is refused …
+example : (checkGlue [] false 3 "y.c1.evil.co.test.".toList ["ns1.victim.co.test.".toList]
+    [⟨"ns1.victim.co.test.".toList, 1, [198, 51, 100, 6]⟩]).servers = [] := by decide
+-- … with a level one short of the zone's depth (2: the bailiwick is `co.test.`) it is accepted
+example : (checkGlue [] false 2 "y.c1.evil.co.test.".toList ["ns1.victim.co.test.".toList]
+    [⟨"ns1.victim.co.test.".toList, 1, [198, 51, 100, 6]⟩]).servers = [[198, 51, 100, 6]] := by decide
+
 /-- Every server `checkGlueRR` hands to the resolver is the address of some
 accepted glue record (so `glue_in_bailiwick` applies to it). -/
 theorem glue_servers_are_accepted (locals : List IP) (ipv6 : Bool) (level : Nat) (qname : Str)
